@@ -96,6 +96,12 @@ class Program:
                     self.adts[k] = a
             for u in j["unsafe_sites"]:
                 self.unsafe_sites.append((c, u))
+        # workspace types with a Drop impl: `drop` terminators on such values run code
+        self.drop_impls = {}
+        for f in self.fns.values():
+            imp = f.get("impl") or {}
+            if imp.get("trait") == "core::ops::drop::Drop" and f.get("item") == "drop" and imp.get("self_adt"):
+                self.drop_impls[imp["self_adt"]] = f
 
     # ---- semantic anchors -------------------------------------------------
     def find_fns(self, name=None, item=None, impl_trait=None, impl_self=None, trait_args=None, crate=None):
